@@ -61,10 +61,46 @@ def guards_of(fi, target, upto=None):
         if not started:
             continue
         if isinstance(node, ast.If) and field in ('body', 'orelse'):
-            out.append((node.test, field == 'body'))
+            out.extend(atomic_guards(node.test, field == 'body'))
         elif isinstance(node, (ast.While,)) and field == 'body' and node is not upto:
-            out.append((node.test, True))
+            out.extend(atomic_guards(node.test, True))
     return out
+
+
+_MIRROR_AST = {ast.Lt: ast.Gt, ast.Gt: ast.Lt, ast.LtE: ast.GtE, ast.GtE: ast.LtE, ast.Eq: ast.Eq, ast.NotEq: ast.NotEq,
+               ast.Is: ast.Is, ast.IsNot: ast.IsNot}
+
+
+def const_right(test):
+    """`None is not x` -> `x is not None`: a single comparison with the constant on the left, mirrored"""
+    if isinstance(test, ast.Compare) and len(test.ops) == 1 and type(test.ops[0]) in _MIRROR_AST \
+            and isinstance(test.left, ast.Constant) and not isinstance(test.comparators[0], ast.Constant):
+        new = ast.Compare(left=test.comparators[0], ops=[_MIRROR_AST[type(test.ops[0])]()], comparators=[test.left])
+        ast.copy_location(new, test)
+        ast.fix_missing_locations(new)
+        return new
+    return test
+
+
+def atomic_guards(test, pol):
+    """A test taken with polarity `pol` as a list of atomic (test, polarity) facts: negations are folded into the
+    polarity, a conjunction that holds / a disjunction that fails is split into its operands, and a comparison with
+    the constant on the left is mirrored (`None is not x` -> `x is not None`), so that the readers of guards see one
+    spelling."""
+    while isinstance(test, ast.UnaryOp) and isinstance(test.op, ast.Not):
+        test, pol = test.operand, not pol
+    if isinstance(test, ast.BoolOp) and ((isinstance(test.op, ast.And) and pol) or (isinstance(test.op, ast.Or) and not pol)):
+        out = []
+        for v in test.values:
+            out.extend(atomic_guards(v, pol))
+        return out
+    if isinstance(test, ast.Compare) and len(test.ops) == 1 and type(test.ops[0]) in _MIRROR_AST \
+            and isinstance(test.left, ast.Constant) and not isinstance(test.comparators[0], ast.Constant):
+        new = ast.Compare(left=test.comparators[0], ops=[_MIRROR_AST[type(test.ops[0])]()], comparators=[test.left])
+        ast.copy_location(new, test)
+        ast.fix_missing_locations(new)
+        test = new
+    return [(test, pol)]
 
 
 def find_loops(fi, kind=(ast.While, ast.For)):
@@ -379,3 +415,124 @@ def lifted_column_loops(e, result):
             if not okr:
                 return 'bad', 'the loop over axis %d runs over %s' % (axn, show(it)[:60])
     return 'ok', {'name': name, 'wname': wname, 'is2d': is2d, 'entry': ent0, 'stores': stores}
+
+
+def loop_counters(exits, loop, alg, start=0):
+    """Names of the variables that count the iterations of `loop` (an ast node): `start` at loop entry and one more at
+    every back edge, read from the loop summaries of the evaluated exits.  Found by role, never by spelling."""
+    found = None
+    for e in exits:
+        st = e.state if hasattr(e, 'state') else e
+        for ls in getattr(st, 'loops', []):
+            if ls.node is not loop:
+                continue
+            cs = set()
+            for name, head in ls.head_env.items():
+                if ls.entry_env.get(name) != C(start):
+                    continue
+                ok = True
+                nb = 0
+                for kind, b in ls.body_states:
+                    if not kind.startswith('back'):
+                        continue
+                    nb += 1
+                    v = b.env.get(name)
+                    hd = head
+                    if kind == 'back' and getattr(ls, 'kind', '') == 'while':
+                        hd = C(start)          # first (peeled) iteration of a while loop starts from the entry value
+                    try:
+                        d = alg.poly(v) - alg.poly(hd)
+                    except Exception:
+                        ok = False
+                        break
+                    if not (d.is_const() and d.const_value() == 1):
+                        ok = False
+                        break
+                if ok and nb:
+                    cs.add(name)
+            # variables that hold the iteration index throughout an iteration (`for k in itertools.count()` is
+            # evaluated as `c = 0; while True: k = c; c += 1; ...`: k is such a variable)
+            idx = set()
+            for name in ls.head_env:
+                if name in cs:
+                    continue
+                for cn in cs:
+                    ok = True
+                    nb = 0
+                    for kind, b in ls.body_states:
+                        if not kind.startswith('back'):
+                            continue
+                        nb += 1
+                        want = C(start) if (kind == 'back' and getattr(ls, 'kind', '') == 'while') else ls.head_env[cn]
+                        if b.env.get(name) != want:
+                            ok = False
+                            break
+                    if ok and nb:
+                        idx.add(name)
+            cs |= idx
+            found = cs if found is None else (found & cs)
+    return found or set()
+
+
+def loop_counter_heads(exits, loop, names):
+    """the loop-head symbols of the named counters of `loop`"""
+    out = set()
+    for e in exits:
+        st = e.state if hasattr(e, 'state') else e
+        for ls in getattr(st, 'loops', []):
+            if ls.node is loop:
+                for n in names:
+                    if n in ls.head_env:
+                        out.add(ls.head_env[n])
+    return out
+
+
+_MIRROR_OP = {'<': '>', '>': '<', '<=': '>=', '>=': '<=', '==': '==', '!=': '!=', 'is': 'is', 'isnot': 'isnot'}
+
+
+def cmp_views(c):
+    """Both readings (op, left, right) of a comparison term: as stored and mirrored.  Rules that look for
+    `counter > limit` use this instead of fixed operand positions (the evaluator stores one canonical orientation)."""
+    if c[0] != 'cmp':
+        return []
+    out = [(c[1], c[2], c[3])]
+    if c[1] in _MIRROR_OP:
+        out.append((_MIRROR_OP[c[1]], c[3], c[2]))
+    return out
+
+
+NP_REDUCTIONS = ('sum', 'mean', 'std', 'var', 'max', 'min', 'median', 'cumsum', 'any', 'all', 'nansum', 'nanmean',
+                 'prod', 'argmax', 'argmin')
+
+
+def as_method(t):
+    """np.sum(x, axis=1) read as x.sum(axis=1): the function form of an array reduction as the method term (rules read
+    one spelling)"""
+    if t[0] == 'call' and t[1].startswith('numpy.') and t[1].split('.')[-1] in NP_REDUCTIONS and t[2] \
+            and t[2][0][0] not in ('list', 'tuple', 'comp'):
+        return ('meth', t[1].split('.')[-1], t[2][0], tuple(t[2][1:]), tuple(t[3]))
+    return t
+
+
+def fold_comp_index(t, ranges=None):
+    """[E(v) for v in R][k]  ->  E(k)   where k is a bound variable that itself runs over R (the generator of an
+    enclosing comprehension): element k of a list built over the same iteration space"""
+    from ..paths import substitute
+    ranges = dict(ranges or {})
+    if not isinstance(t, tuple) or not t or not isinstance(t[0], str):
+        return t
+    if t[0] in ('c', 's', 'bv', 'ref'):
+        return t
+    if t[0] == 'comp' and len(t[3]) == 1 and t[3][0][0][0] == 'bv':
+        var, it, conds = t[3][0]
+        it2 = fold_comp_index(it, ranges)
+        r2 = dict(ranges)
+        r2[var] = it2
+        return ('comp', t[1], fold_comp_index(t[2], r2), ((var, it2, tuple(fold_comp_index(c, r2) for c in conds)),))
+    t = tuple(fold_comp_index(x, ranges) if isinstance(x, tuple) and x and isinstance(x[0], str) else
+              (tuple(fold_comp_index(y, ranges) if isinstance(y, tuple) else y for y in x) if isinstance(x, tuple) else x)
+              for x in t)
+    if t[0] == 'sub' and t[1][0] == 'comp' and len(t[1][3]) == 1 and not t[1][3][0][2] and t[2][0] == 'bv' \
+            and ranges.get(t[2]) == t[1][3][0][1] and t[1][3][0][0][0] == 'bv':
+        return fold_comp_index(substitute(t[1][2], {t[1][3][0][0]: t[2]}), ranges)
+    return t
